@@ -1,2 +1,4 @@
 import MpdProofs.Lemmas.Bytes
 import MpdProofs.C20
+import MpdProofs.Lemmas.Filter
+import MpdProofs.C11
